@@ -60,6 +60,15 @@ def lag_pairs(rng, tier):
                                 coolant='sodium', ncell=3,
                                 cell_bounds=[0.0, 0.15, 0.45, 0.6])
         out.append((f'lag-regions-{nm}', c))
+    # the flow rate derived from a requested outlet temperature / temperature
+    # rise (the derivation evaluates the coolant at another temperature; the
+    # sweep still starts with the coolant as it is at the inlet)
+    for nm, kw in (('outlet-temp', {'outlet_temp': 623.15 + 160.0}),
+                   ('delta-temp', {'delta_temp': 140.0})):
+        c = copy.deepcopy(base)
+        c['setup']['axial_mesh_size'] = 0.002
+        c['assign'] = [(a[0], a[1], a[2], dict(kw)) for a in c['assign']]
+        out.append((f'lag-bc-{nm}', c))
     return out
 
 
